@@ -75,7 +75,85 @@ def run_until(loop, t):
     return r
 
 
-# ---- _status -----------------------------------------------------------------------------------------
+# ---- private state, located by ROLE (never by name); None = not observable, the caller degrades -----------------
+
+def _collections_of(check):
+    try:
+        d = vars(check)
+    except TypeError:
+        return []
+    out = []
+    for v in d.values():
+        if isinstance(v, (str, bytes)) or isinstance(v, asyncio.Event):
+            continue
+        if hasattr(v, '__len__') and hasattr(v, '__iter__'):
+            out.append(v)
+    return out
+
+
+def subscribers(check):
+    """how many watcher events are subscribed to a check: the length of its one collection attribute"""
+    c = _collections_of(check)
+    return len(c[0]) if len(c) == 1 else None
+
+
+def total_subscribers(checks):
+    ns = [subscribers(c) for c in checks]
+    return None if any(n is None for n in ns) else sum(ns)
+
+
+def add_subscriber(check, obj):
+    """put an event-like recorder among the subscribed events; False if that is not possible"""
+    c = _collections_of(check)
+    if len(c) != 1:
+        return False
+    if isinstance(c[0], set):
+        c[0].add(obj)
+        return True
+    if isinstance(c[0], list):
+        c[0].append(obj)
+        return True
+    return False
+
+
+def live_pollers(loop, check):
+    """tasks that run a coroutine METHOD OF THIS CHECK as their outermost coroutine (the harness itself only
+    creates tasks for Health.Watch and for its own client coroutines) and are not finished"""
+    n = 0
+    for t in asyncio.all_tasks(loop):
+        if t.done() or t in _HARNESS_TASKS:
+            continue
+        fr = getattr(t.get_coro(), 'cr_frame', None)
+        if fr is not None and fr.f_locals.get('self') is check:
+            n += 1
+    return n
+
+
+_HARNESS_TASKS = set()
+
+
+def find_reset(service_module):
+    """the synchronous helper of the Watch loop that re-arms wait tasks: the one module-level function of two
+    positional parameters that maps (no events, no waits) to an empty dict.  None if there is no such thing
+    (inlined, turned into a method, ...): then it is simply not driven directly."""
+    import inspect
+    cands = []
+    for name, f in vars(service_module).items():
+        if not inspect.isfunction(f) or f.__module__ != service_module.__name__ or inspect.iscoroutinefunction(f):
+            continue
+        try:
+            ps = [p for p in inspect.signature(f).parameters.values()
+                  if p.kind in (p.POSITIONAL_ONLY, p.POSITIONAL_OR_KEYWORD)]
+            if len(ps) != 2:
+                continue
+            if f([], {}) == {} :
+                cands.append(f)
+        except Exception:
+            continue
+    return cands[0] if len(cands) == 1 else None
+
+
+# ---- the aggregate (through Health.Check, handler called directly) ---------------------------------------
 
 class FixedCheck:
     def __init__(self, v):
@@ -84,17 +162,36 @@ class FixedCheck:
     def __status__(self):
         return self.v
 
+    async def __check__(self):
+        return self.v
+
+    async def __subscribe__(self):
+        return asyncio.Event()
+
+    async def __unsubscribe__(self, event):
+        pass
+
 
 def impl_agg(codes):
-    from grpclib.health.service import _status
-    return int(_status({FixedCheck(ST[c]) for c in codes}))
+    """the status Health.Check answers for a service whose checks have these statuses (non-empty)"""
+    with vloop.session() as loop:
+        health = make_health([[1, list(range(len(codes)))]], [FixedCheck(ST[c]) for c in codes])
+        fs = FakeStream(loop, svc_name(1), False)
+        t = loop.create_task(health.Check(fs))
+        run_quiet(loop, 0.0)
+        if not t.done() or t.exception() is not None or len(fs.sent) != 1:
+            raise RuntimeError('Health.Check did not answer with one message: %r' % (vloop.outcome(t),))
+        return fs.sent[0]
 
 
-# ---- _reset_waits ------------------------------------------------------------------------------------
+# ---- the re-arm helper of the Watch loop, if there is one ------------------------------------------------
 
 def impl_reset(slots):
     """slots: ['1D', '0B', ...] flag + wait state in -NBKDC.  Returns ['<flag'><renewed>', ...]"""
-    from grpclib.health.service import _reset_waits
+    from grpclib.health import service as _svc
+    _reset_waits = find_reset(_svc)
+    if _reset_waits is None:
+        return None, None
     with vloop.session() as loop:
         events, waits = [], {}
 
@@ -189,7 +286,7 @@ def impl_watch_direct(cfg, vals, cmds):
     with vloop.session() as loop:
         checks = [ServiceStatus() for _ in vals]
         for c, v in zip(checks, vals):
-            c._value = ST[v]
+            c.set(ST[v])
         health = make_health(cfg, checks)
         ws = []
         snaps = []
@@ -224,7 +321,7 @@ def impl_watch_direct(cfg, vals, cmds):
         for t, _ in ws:
             t.cancel()
         run_quiet(loop, 1.0)
-        left = sum(len(c._events) for c in checks)
+        left = total_subscribers(checks)
         errors = [type(vloop.outcome(t)[1]).__name__ for t, _ in ws if vloop.outcome(t)[0] == 'exc']
         return snaps, sent, left, errors + [str(u.get('message')) for u in loop.unhandled]
 
@@ -328,7 +425,7 @@ def impl_watch_e2e(cfg, vals, cmds, delays=None):
     with vloop.session() as loop:
         checks = [ServiceStatus() for _ in vals]
         for c, v in zip(checks, vals):
-            c._value = ST[v]
+            c.set(ST[v])
         rig = E2E(loop, make_health(cfg, checks))
         ws = []
         for c in cmds:
@@ -353,7 +450,7 @@ def impl_watch_e2e(cfg, vals, cmds, delays=None):
         for w in ws:
             w['task'].cancel()
         run_quiet(loop, 1.0)
-        left = sum(len(c._events) for c in checks)
+        left = total_subscribers(checks)
         rig.close()
         return got, ends, left
 
@@ -361,13 +458,13 @@ def impl_watch_e2e(cfg, vals, cmds, delays=None):
 # ---- ServiceCheck.__check__, direct, on the virtual clock ---------------------------------------------
 
 class Recorder:
-    """stands in for a watcher's asyncio.Event in ServiceCheck._events: records event.set()"""
+    """stands in for a watcher's asyncio.Event among the events subscribed to a check: records event.set()"""
 
     def __init__(self, loop, check, log):
         self.loop, self.check, self.log = loop, check, log
 
     def set(self):
-        self.log.append((round(self.loop.time() / TICK), CODE.get(self.check._value, 9)))
+        self.log.append((round(self.loop.time() / TICK), CODE.get(self.check.__status__(), 9)))
 
 
 class Script:
@@ -413,7 +510,8 @@ def impl_sc(ttl, tmo, horizon, script, events):
         fn = Script(loop, script)
         c = ServiceCheck(fn, check_ttl=ttl * TICK, check_timeout=tmo * TICK)
         notes = []
-        c._events.add(Recorder(loop, c, notes))
+        if not add_subscriber(c, Recorder(loop, c, notes)):
+            notes = None                 # not observable: the caller skips it
         callers = []
         ends = {}
         cancelled_pending = []       # callers that had not finished when Task.cancel() was called
@@ -452,9 +550,7 @@ def impl_sc(ttl, tmo, horizon, script, events):
             else:
                 outs.append('pending')
         return {
-            'value': CODE.get(c._value, 9),
-            'last': None if c._last_check is None else round(c._last_check / TICK),
-            'lock': int(c._check_lock.is_set()),
+            'value': CODE.get(c.__status__(), 9),
             'callers': outs,
             'log': [tuple(r) for r in fn.log],
             'notes': notes,
@@ -486,8 +582,8 @@ def impl_unsub(ttl, tmo, script, cancel_at, horizon, armed_first=True):
             'handler': vloop.outcome(w)[0],
             'log': [tuple(r) for r in fn.log],
             'sent': list(fs.sent),
-            'poll_task_attr': c._poll_task is not None,
-            'subscribed': len(c._events),
+            'live_pollers': live_pollers(loop, c),
+            'subscribed': subscribers(c),
             'pending_tasks': len(loop.pending_tasks()),
             'max_active': fn.max_active,
         }
@@ -554,8 +650,8 @@ def impl_sc_e2e(case):
         for o in watches:
             o['task'].cancel()
         run_quiet(loop, 2.0)
-        res['left_events'] = sum(len(c._events) for c in checks)
-        res['left_polls'] = sum(1 for c in checks if getattr(c, '_poll_task', None) is not None)
+        res['left_events'] = total_subscribers(checks)
+        res['left_polls'] = sum(1 for c, f in zip(checks, fns) if f is not None and live_pollers(loop, c))
         rig.close()
         return res
 
@@ -610,17 +706,6 @@ class _Capture(logging.Handler):
                              type(record.exc_info[1]).__name__ if record.exc_info and record.exc_info[1] else None))
 
 
-def live_pollers(loop, check):
-    n = 0
-    for t in asyncio.all_tasks(loop):
-        co = t.get_coro()
-        if not t.done() and getattr(co, '__qualname__', '') == 'ServiceCheck._poll':
-            fr = getattr(co, 'cr_frame', None)
-            if fr is not None and fr.f_locals.get('self') is check:
-                n += 1
-    return n
-
-
 def impl_churn(case):
     """cmds: j:<name> (a Watch call is created) | l:<k> (watcher k is cancelled) | i:<n> (n loop iterations) |
     q (run until idle) | t:<dt> (time passes).  rig 'direct': real Health.Watch on a fake stream; 'e2e': real
@@ -638,7 +723,7 @@ def impl_churn(case):
             for spec in case['checks']:
                 if 'status' in spec:
                     c = ServiceStatus()
-                    c._value = ST[spec['status']]
+                    c.set(ST[spec['status']])
                     checks.append(c)
                     fns.append(None)
                 else:
@@ -654,7 +739,7 @@ def impl_churn(case):
 
             def snap():
                 snaps.append([None if f is None else
-                              (len(c._events), int(c._poll_task is not None), live_pollers(loop, c))
+                              (subscribers(c), live_pollers(loop, c))
                               for c, f in zip(checks, fns)])
             for cmd in case['cmds']:
                 p = cmd.split(':')
@@ -702,9 +787,8 @@ def impl_churn(case):
                 o = vloop.outcome(w['task'])
                 ends.append(o[0] if o[0] != 'exc' else 'exc:' + type(o[1]).__name__)
             out['ends'] = ends
-            out['left_events'] = sum(len(c._events) for c in checks)
-            out['left_polls'] = sum(1 for c, f in zip(checks, fns) if f is not None and
-                                    (c._poll_task is not None or live_pollers(loop, c)))
+            out['left_events'] = total_subscribers(checks)
+            out['left_polls'] = sum(1 for c, f in zip(checks, fns) if f is not None and live_pollers(loop, c))
             out['server_errors'] = [r for r in cap.records]
             out['unhandled'] = [str(u.get('message'))[:80] for u in loop.unhandled]
             if rig is not None:
